@@ -43,6 +43,23 @@ def check_hist_state(cfg, what_for):
                    f'current tag set is {set(cur)}')
     if not ut and cur:
       probs.append(f'{what_for}: {k!r} has tags {set(cur)} but no UPDATE_TAGS entry')
+  # history and tags are filed under canonical argument keys only (index for positional-only and
+  # *args values, name otherwise): an entry under any other key belongs to no parameter
+  params = list(cfg.__signature_info__.parameters.values())
+  vps = cfg.__signature_info__.var_positional_start
+  for where, keys in (('history', cfg.__argument_history__), ('tags', cfg.__argument_tags__)):
+    for k in keys:
+      if k == '__fn_or_cls__':
+        continue
+      if isinstance(k, int):
+        ok = (k < len(params) and params[k].kind == params[k].POSITIONAL_ONLY) or \
+            (vps is not None and k >= vps)
+      else:
+        byname = cfg.__signature_info__.parameters.get(k)
+        ok = byname is None or byname.kind not in (byname.POSITIONAL_ONLY, byname.VAR_POSITIONAL)
+      if not ok:
+        probs.append(f'{what_for}: {where} has an entry under {k!r}, which is not the canonical key '
+                     f'of any argument (vkind=stray-key)')
   for k in cfg.__arguments__:
     if k not in cfg.__argument_history__ or not cfg.__argument_history__[k]:
       probs.append(f'{what_for}: {k!r} is set but has no history entry')
@@ -123,7 +140,9 @@ def api_cases(_=None):
   viols = []
   n = 0
   def bad(what, name, kind='other'):
-    viols.append(dict(what=what, sig='api', store=name, op='', api=name, vkind=kind, kinds=[], hasdef=[]))
+    # `api` (the fiddle function; scenario names are `<function>@<variant>`) keys the finding
+    viols.append(dict(what=what, sig='api', store=name, op='', api=name.split('@')[0], scenario=name,
+                      vkind=kind, kinds=[], hasdef=[]))
   def fresh():
     return fdl.Config(pool.fa, 1, 2, 3, 4, k=5)
   here = THIS_FILE
@@ -137,6 +156,14 @@ def api_cases(_=None):
       'set_tags': lambda c: fdl.set_tags(c, 'c', {pool.TagA, pool.TagB}),
       'remove_tag': lambda c: (fdl.add_tag(c, 'k', pool.TagA), fdl.remove_tag(c, 'k', pool.TagA)),
       'clear_tags': lambda c: (fdl.add_tag(c, 'k', pool.TagA), fdl.clear_tags(c, 'k')),
+      # the same tag edits addressed by position (index 2 is the positional-or-keyword `c`,
+      # index 0 the positional-only `a`, index 4 the second *args value)
+      'add_tag@index': lambda c: (fdl.add_tag(c, 2, pool.TagA), fdl.add_tag(c, 0, pool.TagB),
+                                  fdl.add_tag(c, 4, pool.TagA)),
+      'set_tags@index': lambda c: fdl.set_tags(c, 2, {pool.TagA, pool.TagB}),
+      'set_tags@index-po': lambda c: fdl.set_tags(c, 0, {pool.TagA}),
+      'remove_tag@index': lambda c: (fdl.add_tag(c, 2, pool.TagA), fdl.remove_tag(c, 2, pool.TagA)),
+      'clear_tags@index': lambda c: (fdl.add_tag(c, 'c', pool.TagA), fdl.clear_tags(c, 2)),
       'tagged-value assign': lambda c: (fdl.add_tag(c, 'k', pool.TagA), setattr(c, 'k', pool.TagB.new(9))),
       'assign': lambda c: fdl.assign(c, c='C', k='K'),
       'materialize_defaults': lambda c: (c.__delitem__(1), delattr(c, 'k'), materialize.materialize_defaults(c)),
@@ -230,7 +257,9 @@ def api_cases(_=None):
 def replay(case):
   if case.get('api'):
     r = api_cases()
-    m = [v for v in r[2] if v['api'] == case['api']]
+    m = [v for v in r[2] if v['api'] == case['api'] and
+         v.get('scenario') == case.get('scenario', v.get('scenario')) and
+         v.get('vkind') == case.get('vkind', v.get('vkind'))]
     return m[0]['what'] if m else None
   r = check_sig((tuple(case['kinds']), tuple(case['hasdef'])))
   m = [v for v in r[2] if v['store'] == case['store'] and v['ops'] == case['ops']]
